@@ -24,7 +24,8 @@ def run(tier, rep):
 
     # "a failed extension reports an error rather than a partial result": the fault histories whose fault is in an extend
     pc.check(rep, "C06", tier, ["errors"], {"verdict"}, None, 0, invariants=["TypeOK", "Verdict"],
-             case_filter=lambda m: m.get("ncalls", 1) >= 2 and m.get("expected", {}).get("st") == "err", nontrivial=multi_fault)
+             case_filter=lambda m: m.get("ncalls", 1) >= 2 and m.get("expected", {}).get("st") == "err" and m.get("default_cfg", True),
+             nontrivial=multi_fault)
     pc.check(rep, "C06", tier, ["docs3", "children"], {"schema", "unsound"}, "C06",
              sessions=500 if tier == "quick" else 6000, nontrivial=multi, rule=RULE,
              invariants=["TypeOK", "Exact", "Monotone", "NoOpOnEmptyDoc", "AlgebraInv", "ResultWF"],
